@@ -32,7 +32,17 @@ import (
 	"verifharness/internal/ev"
 )
 
-func main() { ev.Supervise("C16", body) }
+func main() {
+	// Race reports are read from the detector's log by raceReports(); without
+	// exitcode=0 a single report anywhere turns the child's exit status into
+	// 66 after the verdict has been written.
+	if os.Getenv("VERIF_CHILD") != "1" {
+		if g := os.Getenv("GORACE"); !strings.Contains(g, "exitcode=") {
+			os.Setenv("GORACE", strings.TrimSpace(g+" exitcode=0"))
+		}
+	}
+	ev.Supervise("C16", body)
+}
 
 var r *ev.Run
 
@@ -162,7 +172,7 @@ func raceReports() {
 		return
 	}
 	files, _ := filepath.Glob(lp + ".*")
-	total, inAuth := 0, 0
+	total, inAuth, harnessOnly := 0, 0, 0
 	var first string
 	for _, f := range files {
 		fh, err := os.Open(f)
@@ -178,6 +188,10 @@ func raceReports() {
 			}
 			total++
 			txt := strings.Join(cur, "\n")
+			if !strings.Contains(txt, "github.com/influxdata/") {
+				harnessOnly++
+				fmt.Fprintf(os.Stderr, "race report with harness frames only:\n%s\n", txt)
+			}
 			if strings.Contains(txt, "meta.(*Client).Authenticate") || strings.Contains(txt, "meta.(*Client).updateAuthCache") || strings.Contains(txt, "httpd.authenticate") {
 				inAuth++
 				if first == "" {
@@ -201,6 +215,7 @@ func raceReports() {
 	}
 	r.Count("race_reports_total", int64(total))
 	r.Count("race_reports_in_authentication_path", int64(inAuth))
+	r.Count("race_reports_in_harness_only", int64(harnessOnly))
 	if inAuth > 0 {
 		if len(first) > 3000 {
 			first = first[:3000]
